@@ -29,6 +29,14 @@ func init() {
 }
 
 func c05Rules(tier string) []Rule {
+	return append(c05RulesBase(tier),
+		// what counts as disrupting includes nodes marked for deletion by a command in flight: the mark survives Node updates
+		core.Custom{ID: "C05.COPY1", Kind: "COPY", Run: func(w *core.World, id string) []core.Result {
+			return fromNode(w, id, []string{"markedForDeletion"})
+		}})
+}
+
+func c05RulesBase(tier string) []Rule {
 	const (
 		bgad  = "(*apis/v1.Budget).GetAllowedDisruptions"
 		byr   = "(*apis/v1.NodePool).GetAllowedDisruptionsByReason"
